@@ -1,4 +1,5 @@
 import Pokerface.Proofs.SettleTie
+import Pokerface.Proofs.GapsBSettle
 /-
   C02 — "Showdown pays the right players the right amounts".
 
@@ -371,4 +372,135 @@ theorem d2_shares : (settle d2).pots.map (fun pr => (potShare pr 0, potShare pr 
 
 theorem d2_changed : d2.map (fun s => changed d2 s.idx) = [75, 75, -25, -50, -75] := by decide
 
+/-! ### per-level conservation, and `changed` level by level -/
+
+/-- The levels of the result pot `pr`, each paired with the odd-chip offset (pot.go `oddChipOffset`)
+    with which `CalculatePot` reaches it: 0 at the first level of the pot, then threaded by
+    `nextOffset` (`withOffsets`, Proofs/GapsBSettle.lean).  `settleLevel` applies to the level `lo.1`
+    exactly the update list `levelUpdates lo.1 lo.2` (`level_payout`, first clause). -/
+def potLevels (pr : PotResult) : List (LevelInfo × Int) := withOffsets 0 pr.levels
+
+theorem levels_wf {ss : List Seat} (h : Valid ss) {pr : PotResult} (hpr : pr ∈ (settle ss).pots) :
+    ∀ li ∈ pr.levels, ∃ xs, LevelWF xs li := by
+  have hlv := gameResults_pots_levels (potsOf (entriesOf ss)) (rowsOf ss)
+  have : pr.levels ∈ (potsOf (entriesOf ss)).map (fun p => p.levels.map (toInfo (rowsOf ss))) := by
+    rw [← hlv]; exact List.mem_map.2 ⟨pr, hpr, rfl⟩
+  exact all_wf (gameIn h) _ this
+
+/-- **Per-level conservation** ("chips only move between players", inside every single layer):
+    for every level `li` kept in the result and every incoming odd-chip offset `o ≥ 0` (the offsets
+    that occur are ≥ 0: `changed_by_levels`), (1) the level's total is `|contributors| · wager` —
+    every contributor put exactly the level's wager into it —, hence (2) the deltas of the update
+    list `levelUpdates li o` that `settleLevel` applies (winners: share − wager, the others:
+    − wager) add up to zero, and (3) so do the net amounts of the level's contributors. -/
+theorem level_zero_sum (ss : List Seat) (h : Valid ss) (pr : PotResult) (hpr : pr ∈ (settle ss).pots)
+    (li : LevelInfo) (hli : li ∈ pr.levels) (o : Int) (ho : 0 ≤ o) :
+    li.total = (li.contributors.length : Int) * li.wager ∧
+    ((levelUpdates li o).map (·.2)).sum = 0 ∧
+    (li.contributors.map (fun i => net (levelUpdates li o) i)).sum = 0 := by
+  obtain ⟨xs, hxs⟩ := levels_wf h hpr li hli
+  exact ⟨hxs.total, levelUpdates_sum hxs o ho, level_net_sum_zero hxs o ho⟩
+
+/-- **`changed`, level by level** — the link between `level_winners` (stated on the rank groups of
+    a level) and the observable `Result.Players[].Changed`, in one statement.  For every seat `s`:
+    (1) `changed ss s.idx` is the sum, over the pots of the result and the levels of each pot, of
+    `s`'s net amount in that level (`net (levelUpdates li o) s.idx`, `o` the pot's odd-chip offset
+    at that level); and (2) for each of these levels `(li, o)`: `o ≥ 0`; `s` is a contributor iff
+    it put in at least the level; its net amount is `0` if it is not a contributor, `−wager` if it
+    is a contributor but not a winner, and the `n`-th part of the level's total (rounded down, plus
+    at most one odd chip) minus its own wager if it is one of the `n` winners; and, when some
+    non-folded player put in at least the level, `s` IS a winner iff it is not folded, put in at
+    least the level, and no non-folded player who put in at least the level has a better score.
+    (Composes `changed_eq_sum_pots`, `potNetOf_eq`, `level_payout`, `level_contributors`,
+    `level_winners`.) -/
+theorem changed_by_levels (ss : List Seat) (h : Valid ss) (s : Seat) (hs : s ∈ ss) :
+    changed ss s.idx =
+      ((settle ss).pots.map fun pr =>
+        ((potLevels pr).map fun lo => net (levelUpdates lo.1 lo.2) s.idx).sum).sum ∧
+    ∀ pr ∈ (settle ss).pots, ∀ lo ∈ potLevels pr,
+      lo.1 ∈ pr.levels ∧ 0 ≤ lo.2 ∧
+      (s.idx ∈ lo.1.contributors ↔ lo.1.level ≤ s.contrib) ∧
+      (s.idx ∉ lo.1.contributors → net (levelUpdates lo.1 lo.2) s.idx = 0) ∧
+      (s.idx ∈ lo.1.contributors → s.idx ∉ levelWinners lo.1 →
+        net (levelUpdates lo.1 lo.2) s.idx = -lo.1.wager) ∧
+      (s.idx ∈ levelWinners lo.1 →
+        Int.tdiv lo.1.total (levelWinners lo.1).length - lo.1.wager ≤ net (levelUpdates lo.1 lo.2) s.idx ∧
+        net (levelUpdates lo.1 lo.2) s.idx ≤ Int.tdiv lo.1.total (levelWinners lo.1).length + 1 - lo.1.wager) ∧
+      ((∃ t ∈ ss, t.folded = false ∧ lo.1.level ≤ t.contrib) →
+        (s.idx ∈ levelWinners lo.1 ↔
+          s.folded = false ∧ lo.1.level ≤ s.contrib ∧
+            ∀ t ∈ ss, t.folded = false → lo.1.level ≤ t.contrib → t.score ≤ s.score)) := by
+  refine ⟨?_, ?_⟩
+  · rw [changed_eq_sum_pots ss h s hs]
+    congr 1
+    apply List.map_congr_left
+    intro pr _
+    rw [potNetOf_eq, net_potUpdates_withOffsets]
+    rfl
+  · intro pr hpr lo hlo
+    have hli : lo.1 ∈ pr.levels := withOffsets_mem_fst hlo
+    have ho : 0 ≤ lo.2 := withOffsets_nonneg pr.levels (levels_wf h hpr) 0 (Int.le_refl _) lo hlo
+    have hpay := (level_payout ss h pr hpr lo.1 hli { players := [], winners := [], offset := lo.2 } s.idx).2
+    have hcon : s.idx ∈ lo.1.contributors ↔ lo.1.level ≤ s.contrib := by
+      rw [level_contributors ss h pr hpr lo.1 hli s.idx]
+      constructor
+      · rintro ⟨s', hs', he, hle⟩
+        have : s' = s := eq_of_nodup_map (·.idx) h.1 hs' hs he
+        rw [← this]; exact hle
+      · intro hle; exact ⟨s, hs, rfl, hle⟩
+    refine ⟨hli, ho, hcon, hpay.1, hpay.2.1, hpay.2.2, ?_⟩
+    intro hex
+    rw [level_winners ss h pr hpr lo.1 hli hex s.idx]
+    constructor
+    · rintro ⟨s', hs', he, hf, hle, hmax⟩
+      have : s' = s := eq_of_nodup_map (·.idx) h.1 hs' hs he
+      subst this
+      exact ⟨hf, hle, hmax⟩
+    · rintro ⟨hf, hle, hmax⟩
+      exact ⟨s, hs, rfl, hf, hle, hmax⟩
+
+
+
+/-- Non-vacuity of `level_zero_sum` / `changed_by_levels` on the sample: the second pot has two
+    levels (45 and 60); the level at 45 holds 4·15 = 60 chips, the level at 60 holds 3·15 = 45 chips
+    and its odd chip goes to seat 2; seats 2 and 3 tie for both.
+    Entries: (level, wager, total, contributors). -/
+example : (settle sample).pots.map (fun pr => (potLevels pr).map fun lo =>
+      (lo.1.level, lo.1.wager, lo.1.total, lo.1.contributors)) =
+    [[(30, 30, 150, [0, 1, 2, 3, 4])], [(45, 15, 60, [1, 2, 3, 4]), (60, 15, 45, [1, 2, 3])], [(100, 40, 80, [2, 3])]] := by
+  decide
+
+/-- … (incoming offset, winners) of these levels … -/
+example : (settle sample).pots.map (fun pr => (potLevels pr).map fun lo => (lo.2, levelWinners lo.1)) =
+    [[(0, [0])], [(0, [2, 3]), (0, [2, 3])], [(0, [2, 3])]] := by decide
+
+/-- … and their update lists (each adds up to zero). -/
+example : (settle sample).pots.map (fun pr => (potLevels pr).map fun lo => levelUpdates lo.1 lo.2) =
+    [[[(0, 120), (2, -30), (3, -30), (1, -30), (4, -30)]],
+     [[(2, 15), (3, 15), (1, -15), (4, -15)], [(2, 8), (3, 7), (1, -15)]],
+     [[(2, 0), (3, 0)]]] := by decide
+
+/-- The decomposition of `changed` for seat 2 of the sample: −30 + (15 + 8) + 0 = −7. -/
+example : (settle sample).pots.map (fun pr => (potLevels pr).map fun lo => net (levelUpdates lo.1 lo.2) 2) =
+    [[-30], [15, 8], [0]] ∧ changed sample 2 = -7 := by decide
+
+/-- the hypotheses of `changed_by_levels` / `level_zero_sum` hold for the sample and its seat 2 / its pots -/
+example := changed_by_levels sample (by decide) ⟨2, 0, 100, false, 5⟩ (by decide)
+example : ∀ pr ∈ (settle sample).pots, ∀ li ∈ pr.levels, ((levelUpdates li 0).map (·.2)).sum = 0 :=
+  fun pr hpr li hli => (level_zero_sum sample (by decide) pr hpr li hli 0 (by decide)).2.1
+
+/-- A level all of whose contributors folded (seat 0's excess over everybody still in the hand): the
+    hypothesis of the last clause of `changed_by_levels` fails there; the folded contributor is the
+    "winner" of that level and gets its wager back (net 0). -/
+example : (settle [⟨0, 10, 100, true, 4⟩, ⟨1, 10, 40, false, 9⟩, ⟨2, 10, 40, false, 3⟩]).pots.map
+      (fun pr => (potLevels pr).map fun lo => (lo.1.level, levelWinners lo.1, net (levelUpdates lo.1 lo.2) 0)) =
+    [[(40, [1], -40)], [(100, [0], 0)]] := by decide
+
 end Pokerface.C02
+
+section Axioms
+open Pokerface.C02
+#print axioms level_zero_sum
+#print axioms changed_by_levels
+end Axioms
+
